@@ -11,20 +11,32 @@ PROPERTY = "C56"
 FLAT = "logger/_flatten.py"
 JSON = "logger/_json.py"
 FMT = "logger/_format.py"
-TECHNIQUE = "concrete interpretation of formatter, flattener, JSON codec over event family; escape analysis"
+TECHNIQUE = "finite evaluation of conversion tables; data-flow/CFG/escape rules; interpreted format family"
 EXPLANATION = (
-    "flattenEvent, flatFormat, KeyFlattener, eventAsJSON / eventFromJSON with their hooks and tables, and the live formatter "
-    "(_formatEvent, formatWithCall, keycall, CallMapping, PotentialCallWrapper) are interpreted from their AST (helpers, generators "
-    "and closures followed; stdlib string.Formatter / json drive the interpreted objects) over a family of 39 format strings covering "
-    "every conversion {none, s, r, a}, format specs, repeated fields, called and uncalled references to one name in both orders, "
-    "attribute / index lookups followed by calls, NamedConstant / LogLevel / bytes / inf values: the text of the original event, "
-    "after flattenEvent, after flattening twice and after the JSON round trip must all equal str.format-with-call-syntax. "
-    "Statically: eventAsJSON flattens the event it serialises before dumps; dumps / loads receive only keyword arguments that make "
-    "them more total; the '__class_uuid__' marker and classInfo rows agree between saver and loader; the JSON fallback encoder "
-    "(default hook, objectSaveHook, every classInfo predicate and saver) performs no may-raise operation on an arbitrary object "
-    "(exception-escape analysis with isinstance narrowing). Not decided: text equality for values outside the family, fidelity of "
-    "non-string values through JSON, objects whose __format__('') differs from str()."
+    "Finite-exhaustive: for every conversion code {None, s, r, a} (the whole domain str.format accepts) the key under which flattenEvent "
+    "stores the text equals the key flatFormat looks up (both through KeyFlattener.flatKey), and the stored text is what str.format would "
+    "render for that code (str / repr / ascii) - evaluated by the checker's own interpreter on a probe whose str, repr and ascii differ. "
+    "Structural (normalised view, private helpers inlined): the parsed format spec flows into a format() call on one side (data flow); the "
+    "flattened key is computed from the field name before '()' is stripped and '()' fields are called before they are converted (CFG "
+    "ordering); _formatEvent selects flatFormat exactly under 'log_flattened' in event and the live formatter exactly otherwise (guard "
+    "polarity); eventAsJSON flattens the event it serialises before dumps (must-precede); dumps / loads get only keyword arguments that make "
+    "them more total; '__class_uuid__' marker and classInfo rows agree between saver and loader; the JSON fallback encoder (default hook, "
+    "objectSaveHook, every classInfo predicate and saver, resolved through the table) performs no may-raise operation on an arbitrary "
+    "object (exception-escape analysis with isinstance narrowing). A structural rule that does not recognise a shape abstains with a note. "
+    "Bounded only (interpreted family of 39 format strings, four stages original / flattened / flattened twice / JSON-loaded compared with "
+    "str.format-with-call-syntax): occurrence counters for repeated fields, the stored value being the converted text, literal/field "
+    "order and the '' join in the reader, called vs uncalled references to one name, index-then-call paths in the live formatter, "
+    "NamedConstant / bytes / inf values through JSON - no shape-independent structural formulation of these survives helper extraction. "
+    "Not decided: values outside the family, objects whose __format__('') differs from str()."
 )
+RULE_KINDS = {
+    # finite-exhaustive: writer / reader key normalisation and conversion function evaluated over the whole conversion domain {None, s, r, a}
+    "conversion/": "finite-exhaustive",
+    # structural: data flow of the format spec, CFG ordering / guards, must-precede, keyword tables, exception-escape over the encoder's call graph
+    "format-spec/": "structural", "key/": "structural", "writer/": "structural", "dispatch/": "structural", "json/": "structural",
+    # bounded: formatter / flattener / JSON codec interpreted on a family of format strings
+    "roundtrip/": "bounded",
+}
 ASSUMPTIONS = [
     "string.Formatter.parse yields (literal_text, field_name, format_spec, conversion)",
     "format(value, '') == str(value) for the values in scope (default __format__)",
@@ -355,7 +367,220 @@ def _encoder_total(ctx):
     ctx.floor("json/encoder-total", len(analysed), 3, "table callables")
 
 
+# ==== finite-exhaustive: writer / reader agreement over the whole conversion domain ================================================
+class _Probe:
+    """str, repr and ascii all differ."""
+
+    def __str__(self):
+        return "S\xe9"
+
+    def __repr__(self):
+        return "R\xe9"
+
+
+class _AnyKey(dict):
+    """The flattened mapping seen by the reader: records every key it is asked for."""
+
+    def __init__(self):
+        super().__init__()
+        self.asked = []
+
+    def __getitem__(self, k):
+        self.asked.append(k)
+        return "?"
+
+    def __contains__(self, k):
+        return True
+
+
+def _conversion_tables(ctx):
+    import collections
+    import string
+    import typing
+    from sa.props._lib_k import Interp
+    fl = ctx.mod(FLAT)
+    for name in ("flattenEvent", "flatFormat", "KeyFlattener.flatKey"):
+        ctx.func(FLAT, name)
+    it = Interp({}, budget=400000)
+    it.load(fl)
+    it.globals.update({"aFormatter": string.Formatter(), "Formatter": string.Formatter, "defaultdict": collections.defaultdict, "LogEvent": dict,
+                       "Dict": typing.Dict, "Any": typing.Any, "Optional": typing.Optional, "Iterator": typing.Iterator, "Tuple": typing.Tuple})
+    want_fn = {None: str, "s": str, "r": repr, "a": ascii}
+    domain_note = ("string.Formatter.parse yields a conversion in {None, 's', 'r', 'a'} for every format string str.format accepts (any other code is a "
+                   "ValueError in the original path too); all four are evaluated")
+    for conv in (None, "s", "r", "a"):
+        label = f"conversion={conv!r}"
+        fmt = "{x" + ("!" + conv if conv else "") + "}"
+        probe = _Probe()
+        ev = {"log_format": fmt, "x": probe}
+        try:
+            it.globals["flattenEvent"](ev)
+            stored = dict(ev.get("log_flattened", {}))
+            asked = _AnyKey()
+            it.globals["flatFormat"]({"log_format": fmt, "log_flattened": asked})
+        except AnalysisError:
+            raise
+        except Exception as e:
+            raise AnalysisError(f"C56: flatten / flatFormat cannot be evaluated for {label}: {type(e).__name__}: {e}")
+        text_keys = sorted(k for k, v in stored.items() if isinstance(v, str))
+        ctx.check(len(asked.asked) == 1 and asked.asked[0] in text_keys, "conversion/key-agreement", f"{QF}flattenEvent|flatFormat | {label}",
+                  f"for a field written {fmt} the writer stores its text under {text_keys} but the reader looks up {asked.asked}: KeyError, the flattened event "
+                  "formats as 'Unable to format event ...'", detail=domain_note)
+        exp = want_fn[conv](probe)
+        got = [stored[k] for k in text_keys]
+        ctx.check(got == [exp], "conversion/function-agreement", f"{QF}flattenEvent | {label}",
+                  f"str.format renders this conversion as {exp!r}, the writer stores {got!r}: the flattened text differs", detail=domain_note)
+
+
+# ==== structural rules on the normalised view ==========================================================================================
+def _norm(ctx, rel, known=()):
+    from sa.props._lib_j import Normaliser
+    try:
+        return Normaliser(ctx.mod(rel), set(known)).run()
+    except RecursionError:
+        return ctx.mod(rel)
+
+
+def _abstain(ctx, rule, why, bounded="roundtrip/concrete-family"):
+    ctx.note(f"{rule}: shape not recognised ({why}); clause left to the bounded rule {bounded}")
+
+
+def _parse_loops(tree):
+    out = []
+    for fn in ast.walk(tree):
+        if isinstance(fn, ast.FunctionDef):
+            for lp in ast.walk(fn):
+                if isinstance(lp, ast.For) and isinstance(lp.iter, ast.Call) and isinstance(lp.iter.func, ast.Attribute) and lp.iter.func.attr == "parse" \
+                        and isinstance(lp.target, (ast.Tuple, ast.List)) and len(lp.target.elts) == 4 and all(isinstance(e, ast.Name) for e in lp.target.elts):
+                    if not any(l2 is lp for f2, l2 in out):
+                        out.append((fn, lp))
+    # keep the innermost owning function only
+    inner = []
+    for fn, lp in out:
+        owners = [f2 for f2, l2 in out if l2 is lp]
+        best = min(owners, key=lambda f: sum(1 for _ in ast.walk(f)))
+        if (best, lp) not in inner:
+            inner.append((best, lp))
+    return inner
+
+
+def _membership(t, key):
+    """+1 when the test means `key in event`, -1 for `key not in event`, else 0."""
+    if isinstance(t, ast.Compare) and len(t.ops) == 1 and isinstance(t.left, ast.Constant) and t.left.value == key:
+        if isinstance(t.ops[0], ast.In):
+            return 1
+        if isinstance(t.ops[0], ast.NotIn):
+            return -1
+    return 0
+
+
+def _flatten_structure(ctx):
+    from sa.props._lib_j import taint
+    nm = _norm(ctx, FLAT, known={"flattenEvent", "flatFormat", "flatKey"})
+    loops = _parse_loops(nm.tree)
+    # ---- the format spec reaches the emitted text other than through the key ----------------------------------------------------
+    if not loops:
+        _abstain(ctx, "format-spec/applied", "no loop over Formatter.parse found")
+    else:
+        applied = False
+        for fn, lp in loops:
+            spec = lp.target.elts[2].id
+            tainted = taint(fn, [spec])
+            for x in ast.walk(fn):
+                if isinstance(x, ast.Call):
+                    nm_ = call_name(x) or ""
+                    last = nm_.split(".")[-1]
+                    args = list(x.args[1:] if last == "format" and isinstance(x.func, ast.Name) else x.args) + [k.value for k in x.keywords]
+                    if last in ("format", "format_field", "__format__") and not (isinstance(x.func, ast.Attribute) and isinstance(x.func.value, ast.Constant)) \
+                            and any(isinstance(n, ast.Name) and n.id in tainted for a in args for n in ast.walk(a)):
+                        applied = True
+                elif isinstance(x, ast.FormattedValue) and x.format_spec is not None and any(isinstance(n, ast.Name) and n.id in tainted for n in ast.walk(x.format_spec)):
+                    applied = True
+        ctx.check(applied, "format-spec/applied", QF + "flattenEvent|flatFormat | <format spec of a field>",
+                  "neither the writer nor the reader applies the field's format spec (it only becomes part of the key): '{x:05d}' gives '00003' "
+                  "for the original event and '3' for the flattened one", detail="data flow from the parsed format_spec into a format() call")
+    # ---- writer: key computed from the unstripped field name; '()' fields called before conversion ---------------------------------
+    w = nm.find("flattenEvent")
+    wl = [lp for fn, lp in loops if fn is w]
+    if not isinstance(w, ast.FunctionDef) or len(wl) != 1:
+        _abstain(ctx, "key/uses-unstripped-field-name", "parse loop of flattenEvent")
+        return
+    lp = wl[0]
+    g = ctx.cfg(w)
+    heads = g.ids_of(lp)
+    field = lp.target.elts[1].id
+    keycalls = [c for c in ast.walk(lp) if isinstance(c, ast.Call) and isinstance(c.func, ast.Attribute) and c.func.attr == "flatKey" and c.args]
+    if keycalls and all(isinstance(c.args[0], ast.Name) and c.args[0].id == field for c in keycalls):
+        reassign = g.ids(lambda n: n.kind == "stmt" and isinstance(n.ast, (ast.Assign, ast.AugAssign)) and
+                         any(isinstance(t, ast.Name) and t.id == field for t in (n.ast.targets if isinstance(n.ast, ast.Assign) else [n.ast.target])))
+        bad = None
+        for c in keycalls:
+            for r in reassign:
+                p = g.path([r], g.ids_of(c), avoid=heads, strict=True)
+                if p:
+                    bad = p
+        ctx.check(bad is None, "key/uses-unstripped-field-name", QF + "flattenEvent | flatKey(field name, ...)",
+                  "the field name is rewritten (e.g. '()' stripped) before the key is computed: '{x()}' and '{x}' share keys / the reader's key differs",
+                  witness=g.describe(bad))
+    else:
+        _abstain(ctx, "key/uses-unstripped-field-name", "first argument of flatKey")
+    convs = {"str", "repr", "ascii"}
+    aliases = set()
+    for st in ast.walk(lp):
+        if isinstance(st, ast.Assign) and len(st.targets) == 1 and isinstance(st.targets[0], ast.Name):
+            leaves = [st.value.body, st.value.orelse] if isinstance(st.value, ast.IfExp) else [st.value]
+            if all(isinstance(x, ast.Name) and x.id in convs for x in leaves):
+                aliases.add(st.targets[0].id)
+    conv_calls = [c for c in ast.walk(lp) if isinstance(c, ast.Call) and isinstance(c.func, ast.Name) and c.func.id in (convs | aliases) and len(c.args) == 1 and isinstance(c.args[0], ast.Name)]
+    callsites = g.ids(lambda n: n.kind == "stmt" and isinstance(n.ast, ast.Assign) and isinstance(n.ast.value, ast.Call) and isinstance(n.ast.value.func, ast.Name)
+                      and not n.ast.value.args and not n.ast.value.keywords and any(isinstance(t, ast.Name) and t.id == n.ast.value.func.id for t in n.ast.targets))
+    mine = [c for c in conv_calls if any(isinstance(g.node(cs).ast.value.func, ast.Name) and g.node(cs).ast.value.func.id == c.args[0].id for cs in callsites)]
+    if mine and callsites:
+        bad = None
+        for c in mine:
+            for cs in callsites:
+                if g.node(cs).ast.value.func.id == c.args[0].id:
+                    p = g.path(g.ids_of(c), [cs], avoid=heads, strict=True)
+                    if p:
+                        bad = p
+        ctx.check(bad is None, "writer/call-before-convert", QF + "flattenEvent | '()' fields",
+                  "the '()' call happens after the value was converted: the text of the callable itself is stored", witness=g.describe(bad))
+    else:
+        _abstain(ctx, "writer/call-before-convert", "call / conversion sites of the field value")
+
+
+def _dispatch(ctx):
+    nm = _norm(ctx, FMT, known={"_formatEvent", "flatFormat", "formatWithCall"})
+    fe = nm.find("_formatEvent")
+    ctx.need(isinstance(fe, ast.FunctionDef), "function _formatEvent")
+    g = ctx.cfg(fe)
+    q = "twisted.logger._format._formatEvent"
+    disp = g.find(lambda x: isinstance(x, ast.Call) and call_name(x) == "flatFormat")
+    ctx.check(bool(disp), "dispatch/flattened-uses-flatFormat", q + " | flatFormat(event)",
+              "events carrying 'log_flattened' are no longer formatted from their flattened values (objects lost by JSON would be re-formatted)")
+
+    def polarity(n):
+        out = set()
+        for t, lab in g.edge_guards(n):
+            m = _membership(g.node(t).ast, "log_flattened")
+            if m:
+                out.add(m * (1 if lab == "T" else -1))
+        return out
+    for d in disp:
+        ctx.check(polarity(d) == {1}, "dispatch/flattened-uses-flatFormat", q + " | flatFormat only for flattened events",
+                  "flatFormat is not selected exactly by the presence of 'log_flattened'")
+    for o in g.find(lambda x: isinstance(x, ast.Call) and call_name(x) == "formatWithCall"):
+        ctx.check(polarity(o) == {-1}, "dispatch/flattened-uses-flatFormat", q + " | live formatter only for unflattened events",
+                  "the live-object formatter can run for an event that carries flattened values")
+
+
 def check(ctx):
+    with ctx.section("conversion tables"):
+        _conversion_tables(ctx)
+    with ctx.section("flatten / format structure"):
+        _flatten_structure(ctx)
+    with ctx.section("_formatEvent dispatch"):
+        _dispatch(ctx)
     with ctx.section("JSON"):
         _json(ctx)
     with ctx.section("JSON fallback encoder"):
